@@ -245,6 +245,11 @@ func (s *Session) bind(o *Config) {
 		return
 	}
 
+	if iq.Type != stanza.IQTypeResult {
+		s.err = errors.New("iq bind request was not answered with a result but with type '" + string(iq.Type) + "'")
+		return
+	}
+
 	// TODO Check all elements
 	switch payload := iq.Payload.(type) {
 	case *stanza.Bind:
@@ -290,6 +295,10 @@ func (s *Session) rfc3921Session() {
 
 		if s.err = s.transport.GetDecoder().Decode(&iq); s.err != nil {
 			s.err = errors.New("expecting iq result after session open: " + s.err.Error())
+			return
+		}
+		if iq.Type != stanza.IQTypeResult {
+			s.err = errors.New("session open request was not answered with a result but with type '" + string(iq.Type) + "'")
 			return
 		}
 	}
